@@ -92,7 +92,8 @@ InDomain(B, tpl, al, nvals) ==
 
 \* expected texts, given the literal of each value (lits) for the inline form
 RECURSIVE InlineOf(_, _)
-InlineOf(ps, lits) == IF ps = <<>> THEN "" ELSE (IF ps[1].k = "text" THEN ps[1].s ELSE lits[ps[1].i]) \o InlineOf(Tail(ps), lits)
+InlineOf(ps, lits) == IF ps = <<>> THEN ""
+                      ELSE (IF ps[1].k = "text" THEN ps[1].s ELSE IF ps[1].i \in DOMAIN lits THEN lits[ps[1].i] ELSE "<no such value>") \o InlineOf(Tail(ps), lits)
 \* parameterised form: k-th value part becomes the k-th mark
 RECURSIVE ParamOf(_, _, _)
 ParamOf(B, ps, k) ==
